@@ -17,7 +17,7 @@
                            equal the lists the model implements (closed by reflexivity in Proofs.code_shape_holds) *)
 From Coq Require Import List ZArith Bool.
 Import ListNotations.
-From V Require Import Base.U32 Base.Bytes Gen.C12Consts C12.Model C12.Proofs.
+From V Require Import Base.U32 Base.Bytes Gen.C12Consts C12.Model C12.Proofs C12.Chain.
 Local Open Scope Z_scope.
 
 (* ev_ok: Time dt has dt >= 0; a server message is not a gate-passing SET_CHANNEL_CONFIG / GET_CHANNEL_CONFIG_RESULT for a
@@ -39,6 +39,63 @@ Print Assumptions C12_only_these_enter_cfgmode.
    The full clause "each of the ten within the chaining window of the previous one, in true time"
        forall ..., cause (b) -> the last PRESS_COUNT changes of input i are pairwise less than 2 s apart
    is false of the faithful model (32-bit time differences): C12_toggle_chain_u32_wrap_refuted. *)
+
+(* Clause (b) in time — legacy input handler (inputs without active ActionTriggers).
+   Vocabulary (C12/Chain.v): changes i evs = state changes (time, new state) of input i in evs, most recent first;
+   refok b32 l r: r is the counter-zero reference (- b32) or the time of a change of that input to "active";
+   linked b32 l chain: every element t of the chain (most recent first) has a reference r, not later than the previous
+   element, with u32 (t - r) < CHAIN_WINDOW_US (the literal of the handler's test, extracted by the translator) — the link
+   as the code measures it; subseq chain times: the chain consists of distinct change events of that input;
+   leg_in i ty fl s: input i has type ty, flags fl and is served by the legacy handler (advanced s x = false).
+   If a notification of input i enters configuration mode, the input has on-toggle enabled and the notification closes a
+   chain of at least PRESS_COUNT of its state changes, each link quick in the device's 32-bit microsecond arithmetic. *)
+Theorem C12_toggle_entry_is_quick_chain : forall b32 bl fc ins rs pre stt post t i ty fl,
+  Forall ev_ok (pre ++ Notify i stt :: post) ->
+  (forall p q, pre ++ Notify i stt :: post = p ++ q -> leg_in i ty fl (fst (run_from init (Boot b32 bl fc ins rs :: p)))) ->
+  let s1 := fst (run_from init (Boot b32 bl fc ins rs :: pre)) in
+  In (EnterCfg t) (snd (step s1 (Notify i stt))) ->
+  exists x, getn (inputs s1) i = Some x /\ toggle_enabled x = true /\
+    exists chain, PRESS_COUNT <= len chain /\ hd 0 chain = now s1 /\
+                  subseq chain (map fst (changes i (pre ++ [Notify i stt]))) /\
+                  linked (boot32 s1) (changes i (pre ++ [Notify i stt])) chain.
+Proof. exact (toggle_entry_chain_thm code_shape_holds). Qed.
+Print Assumptions C12_toggle_entry_is_quick_chain.
+
+(* "quick succession" proper: if no change of that input comes a full period of the 32-bit counter (2^32 us = 71.58 min) or
+   more after a reference (exactly the pauses of the known finding toggle-gap-u32-wrap), consecutive elements of the chain are
+   less than CHAIN_WINDOW_US apart in true time and the whole chain took at most (n - 1) * (CHAIN_WINDOW_US - 1) us. *)
+Theorem C12_toggle_entry_quick_in_true_time : forall b32 bl fc ins rs pre stt post t i ty fl,
+  Forall ev_ok (pre ++ Notify i stt :: post) ->
+  (forall p q, pre ++ Notify i stt :: post = p ++ q -> leg_in i ty fl (fst (run_from init (Boot b32 bl fc ins rs :: p)))) ->
+  let s1 := fst (run_from init (Boot b32 bl fc ins rs :: pre)) in
+  let l := changes i (pre ++ [Notify i stt]) in
+  In (EnterCfg t) (snd (step s1 (Notify i stt))) ->
+  (forall tc st r, In (tc, st) l -> refok (boot32 s1) l r -> r <= tc -> tc - r < 4294967296) ->
+  exists chain, PRESS_COUNT <= len chain /\ hd 0 chain = now s1 /\ subseq chain (map fst l) /\ quick chain /\
+                now s1 - last chain 0 <= (len chain - 1) * (CHAIN_WINDOW_US - 1).
+Proof. exact (toggle_entry_true_time_thm code_shape_holds). Qed.
+Print Assumptions C12_toggle_entry_quick_in_true_time.
+
+(* non-vacuity: ten toggles 300 ms apart on a bistable configuration button satisfy every hypothesis of both theorems *)
+Example C12_toggle_chain_nonvacuous :
+  let b := w_boot TYPE_BISTABLE FLAG_CFG_BTN in
+  let s1 := fst (run_from init (b :: w_quick_pre)) in
+  let l := changes 0 (w_quick_pre ++ [Notify 0 0]) in
+  Forall ev_ok (w_quick_pre ++ Notify 0 0 :: []) /\
+  (forall p q, w_quick_pre ++ Notify 0 0 :: [] = p ++ q -> leg_in 0 TYPE_BISTABLE FLAG_CFG_BTN (fst (run_from init (b :: p)))) /\
+  In (EnterCfg (now s1)) (snd (step s1 (Notify 0 0))) /\
+  (forall tc st r, In (tc, st) l -> refok (boot32 s1) l r -> r <= tc -> tc - r < 4294967296) /\
+  map fst l = map (fun k => 500000 + 300000 * Z.of_nat k) (rev (seq 0 10)).
+Proof. exact chain_nonvacuous_thm. Qed.
+Print Assumptions C12_toggle_chain_nonvacuous.
+
+(* the wrap witness (C12_toggle_chain_u32_wrap_refuted below) has its ten changes exactly 2^32 us apart: links quick modulo
+   2^32, no two changes within the window in true time *)
+Theorem C12_toggle_wrap_witness_changes :
+  map fst (changes 0 (firstn 20 w_wrap_toggles)) = map (fun k => 500000 + 4294967296 * Z.of_nat k) (rev (seq 0 10)) /\
+  4294967296 > CHAIN_WINDOW_US.
+Proof. exact wrap_witness_changes_thm. Qed.
+Print Assumptions C12_toggle_wrap_witness_changes.
 
 (* nothing happens before the first boot *)
 Theorem C12_preboot_ignored : forall pre evs,
